@@ -194,7 +194,7 @@ Proof. vm_compute. repeat split; reflexivity. Qed.
 Example c02_published_example :
   let kc := {| Seal.right_pass := key_pass; Seal.main_key := 1; Seal.main_res := Seal.FGood; Seal.role_ok := true;
                Seal.ed_file := Some (key_pass, 2, Seal.FGood); Seal.extra_pubkeys := [9; 1; 9; 1] |} in
-  let r := {| Seal.i_tls := true; Seal.i_chain := true; Seal.i_field := Some key_pass |} in
+  let r := Seal.admin_inj (Some key_pass) in
   let ks := Seal.inject_all kc (Seal.sealed_init kc) [r] in
   Seal.pubkeys ks = [9; 1; 9; 1; 2] /\ Seal.ca_ders ks = [2; 1] /\
   match certgen no_expand {| s_keys := ks; s_cfg := [sU2F]; s_name := case_name; s_host := case_host; s_addr := s_port443; s_templates := [];
